@@ -297,6 +297,21 @@ def annotate_loops(body, loops, unit):
         if kind == 'for':
             m = re.match(r'for\s+(.*?)\s+in\s+(.*)$', head, re.S)
             pat, expr = m.group(1), m.group(2).rstrip()
+            if l.get('mut_index'):
+                # R25: `for PAT in &mut VEC { BODY }` -> index loop with `let PAT = &mut VEC[i];` (Verus has no usable IterMut spec);
+                # the body is unchanged; it must not contain break/continue
+                if not expr.startswith('&mut '):
+                    raise LostAnchor('loop %d of %s is not a `for .. in &mut ..` loop any more' % (k, unit))
+                vec = expr[len('&mut '):].strip()
+                close = match_close(body, br)
+                inner = body[br + 1:close]
+                if re.search(r'\b(break|continue)\b', inner):
+                    raise LostAnchor('loop %d of %s contains break/continue (R25 does not apply)' % (k, unit))
+                iv = '__i%d' % k
+                new = ('let mut %s: usize = 0;\n while %s < %s.len()\n %s\n{ let %s = &mut %s[%s];%s%s\n %s = %s + 1; }'
+                       % (iv, iv, vec, l.get('inv') or '', pat, vec, iv, l.get('body_proof', ''), inner, iv, iv))
+                body = body[:st] + new + body[close + 1:]
+                continue
             if 'rebind' in l:
                 # R20: for PAT in EXPR {..}  ->  let __hK = EXPR; for __e in it: &__hK inv { let PAT = <rebind>; ..}
                 h = '__h%d' % k
